@@ -3,6 +3,7 @@ and with the Impl mirror (correspondence).  C02 C03 C04 C05 C06 C10 C11 C13."""
 from .common import *
 from .gens import *
 from .ctx import *
+from .ctx import kinds_only
 
 
 def block_case(rng, mode, n_ops, with_state=True, oneshot=False, padded=False, dcalls=False):
@@ -255,7 +256,42 @@ def run_C10(ctx):
         for _ in range(ctx.n(90, 1500)):
             cases.append(seek_case(ctx.rng, mode))
     res = ctx.run(cases)
-    ctx.check_absolute(cases, res)
+    # reported positions and outcome kinds: absolute (the byte position is tracked from the requested seeks);
+    # bytes produced after a seek: compared with the implementation's OWN keystream at that offset, obtained
+    # independently of the wrapper's seek logic by positioning a fresh core at the block (`set_block_pos`)
+    ctx.check_absolute(cases, res, project=kinds_only)
+    want = []          # (case, op index, q, data, out)
+    for c in cases:
+        h = res["H"][c.cid]
+        if h is None:
+            continue
+        q = 0
+        for i, op in enumerate(c.ops):
+            t = op.split()
+            if i >= len(h):
+                break
+            if t[0] == "seek" and h[i] == "ok":
+                q = int(t[2])
+            elif t[0] == "apply" and h[i].startswith("out "):
+                data = unhx(t[1])
+                if data:
+                    want.append((c, i, q, data, payload(h[i])))
+                q += len(data)
+    refs = []
+    for (c, i, q, data, out) in want:
+        b0, b1 = q // c.bs, (q + len(data) - 1) // c.bs
+        refs.append(Case("core", c.mode, c.bs, c.w, c.key, c.iv, ops=[f"setpos {b0}", f"ksblocks {b1 - b0 + 1}"]))
+    r2 = ctx.run(refs, layers=())
+    for (c, i, q, data, out), rc in zip(want, refs):
+        hr = r2["H"][rc.cid]
+        if hr is None or len(hr) < 2 or not hr[1].startswith("out "):
+            continue
+        ksb = payload(hr[1])
+        off = q - (q // c.bs) * c.bs
+        exp = xor(data, ksb[off:off + len(data)])
+        if exp != out:
+            ctx.violation("predicate", f"{c.mode} bs={c.bs} w={c.w}: bytes produced at offset {q} (op {i}, after seeking) are not bytes {q}.. of the keystream the core generates at that position",
+                          [c, rc], {"H": res["H"][c.cid], "H_core": hr})
 
 
 def exhaust_case(rng, mode):
@@ -295,6 +331,8 @@ def exhaust_case(rng, mode):
         q = (limb + 1 + rng.randrange(0, 3)) * bs + rng.randrange(0, bs)
         c.ops.append(f"seek u128 {q}")
     c.meta["cls_place"] = how
+    # hand out the first few keystream blocks first, so that a wrap-around back to them is a visible reuse
+    c.ops.insert(0, f"apply {hx(rb(rng, rng.randrange(2, 5) * bs))}")
     remaining = max(0, lim - q)
     for _ in range(rng.randrange(1, 5)):
         r = rng.random()
@@ -322,6 +360,8 @@ def sig_C11(c, i, hi, si):
     """signature of a failing history: the type family and the shape of the last seek before the failure."""
     wbits = counter_bits(c.mode)
     last = None
+    if i is None:
+        i = len(c.ops)
     for o in c.ops[: i + 1]:
         t = o.split()
         if t[0] == "seek":
@@ -348,7 +388,43 @@ def run_C11(ctx):
             c.ops.append("rem")
             cases.append(c)
     res = ctx.run(cases)
-    ctx.check_absolute(cases, res, sigfn=sig_C11)
+    # outcome kinds (Ok iff the request fits), buffers and position after an error, remaining_blocks: absolute
+    ctx.check_absolute(cases, res, sigfn=sig_C11, project=kinds_only)
+    no_reuse(ctx, [c for c in cases if c.family == "stream"], res)
+
+
+def no_reuse(ctx, cases, res):
+    """the property itself: within one instance's history, keystream handed out at two different block
+    positions must differ (keystream = output xor input, positions tracked from the requested seeks)."""
+    for c in cases:
+        h = res["H"][c.cid]
+        if h is None:
+            continue
+        bs, q = c.bs, 0
+        seen = {}          # block index -> keystream block
+        for i, op in enumerate(c.ops):
+            t = op.split()
+            if i >= len(h):
+                break
+            if t[0] == "seek" and h[i] == "ok":
+                q = int(t[2])
+            elif t[0] == "fromcore" and h[i] == "ok":
+                q = int(t[1]) * bs
+            elif t[0] in ("apply", "applyb") and h[i].startswith("out "):
+                data, out = unhx(t[1]), payload(h[i])
+                ks = xor(data, out)
+                for b in range((q + bs - 1) // bs, (q + len(data)) // bs):
+                    blk = ks[b * bs - q:(b + 1) * bs - q]
+                    for b2, k2 in seen.items():
+                        if b2 != b and k2 == blk and bs >= 4:
+                            ctx.violation("predicate", f"{c.mode} bs={bs}: keystream block handed out at block position {b2} is used again at block position {b} without an error",
+                                          [c], {"H": h}, sig=sig_C11(c, i, None, None))
+                            break
+                    else:
+                        seen[b] = blk
+                        continue
+                    break
+                q += len(data)
 
 
 def run_C13(ctx):
@@ -431,4 +507,5 @@ def run_C13(ctx):
                 c.meta["cls_kind"] = "stream-limit"
                 cases.append(c)
     res = ctx.run(cases)
-    ctx.check_absolute(cases, res)
+    # C13 speaks about outcomes (ok / err / panic) and about buffers after an error, not about the bytes produced
+    ctx.check_absolute(cases, res, project=kinds_only)
